@@ -24,6 +24,10 @@ CLAIMED = {
  'C02': ('proptest-generated git streams (plain or coloured by an independent colouriser) x option sets containing color-only; line-count equality + per-line visible-text equality via terminal model',
          'Exploration: for every generated stream and option set with color-only, the number of output lines equals the number of input lines; unless an option that the mode presets is explicitly set, the visible text of every output line equals that of the corresponding input line.',
          'Trusted: terminal model; syntactic override rule (errs towards count-only); lines kept below max-line-length.', '3/C02'),
+
+ 'C04': ('proptest-generated marker-free text streams with sentinels, alone and interleaved with rendered sections; byte-identity oracle with independently computed permitted transforms',
+         'Exploration: free text (with escape sequences, CR variants, invalid UTF-8, NUL) must come out byte for byte (after CR normalisation / lossy UTF-8), exactly once, in order, and correctly interleaved with the rendered sections, under all option sets.',
+         'Trusted: marker set derived from handler gates; constructive CR cases; lines kept below max-line-length (truncation rule not asserted).', '3/C04'),
 }
 hook_commits = subprocess.check_output(['git','-C','/repo','log','--format=%H','--grep','^verif hook:'],text=True).split()
 checks = []
